@@ -215,6 +215,8 @@ class SList:
 
     def frozen_copy(self):
         c = SList(self.n, self.elem, self.is_tuple)
+        c.track = getattr(self, 'track', False)
+        c.root = getattr(self, 'root', None)
         c.writes = list(self.writes)
         c.cellwrites = list(self.cellwrites)
         return c
